@@ -563,7 +563,8 @@ package table
 // per key and emit withdrawals first, so the key has to be what the receiver identifies a route by - the local
 // path id is part of it only when ADD-PATH is sent for the family
 //@ props C11
-//@ func CreateUpdateMsgFromPaths
+// (the key is computed by the first closure of CreateUpdateMsgFromPaths)
+//@ func CreateUpdateMsgFromPaths$1
 //@   claims at-call
 //@   at-call path.GetLocalKey() requires bgp.IsAddPathEnabled(false, path.GetFamily(), options)
 
